@@ -232,7 +232,7 @@ fn run_case(seed: u64) -> (Vec<(String, String)>, Vec<String>, Layout, Vec<Event
   // Special repeats of any length, possibly overlapping keys that are held
   for m in layout.mappings.iter_mut() {
     if r.below(2) == 0 {
-      let n = 1 + r.below(3);
+      let n = if r.below(8) == 0 { 0 } else { 1 + r.below(3) };      // now and then an empty chord
       let mut keys: Vec<KeyCode> = Vec::new();
       while keys.len() < n { let k = if r.below(3) == 0 && !m.to.is_empty() { m.to[r.below(m.to.len())] } else { REP_KEYS[r.below(REP_KEYS.len())] }; if !keys.contains(&k) { keys.push(k); } }
       m.repeat = crate::keys::Repeat::Special { keys, delay_ms: 1 + r.below(3) as i32, interval_ms: 1 + r.below(2) as i32 };
